@@ -12,6 +12,11 @@ Every number that enters a rollout is *injective* in (agent, env, step): observa
 value and reward from per-case tables of pairwise distinct float32 numbers.  Whatever the code does
 with the arrays, every element of a tapped array can be traced back to the sample it came from.
 
+In ~38% of the cases gamma / gae_lambda are changed after the agent was constructed (assignment, RL
+hyper-parameter mutation, assignment + clone(), save_checkpoint + load_checkpoint into an agent built with
+other values); the reference always uses the agent's attribute values at learn time, so estimates computed
+from numbers cached at construction time show up as gae_recursion / advantage_follows_constructor_time_gamma_lambda.
+
 Monitors (monitor / kind strings are mechanism names, see the bottom of `_analyse`):
   gae_inputs       columns of the tapped (rewards, values, dones, next_done) arrays that the recursion runs
                    over belong to one (agent, env) each, in time order, rollout length preserved
@@ -42,7 +47,10 @@ LEVEL = "exploration"
 RULE = (
     "case = (PPO|IPPO, vectorised or not, T 1..8, envs 1..4, agents sharing a policy 1..3 (+0..1 agent with its own "
     "policy), vector|dict observation, Discrete|Box(1)|Box(2) action, gamma, lambda in {0,.5,.95,1} (a quarter of the "
-    "random cases: uniform in [0,1]), done flags "
+    "random cases: uniform in [0,1]), in ~38% of the cases gamma / gae_lambda are changed AFTER construction (plain "
+    "assignment | Mutations.rl_hyperparam_mutation with gamma, gae_lambda in the HyperparameterConfig | assignment then "
+    "clone() | save_checkpoint + load_checkpoint into an agent built with other values) and the oracle uses the agent's "
+    "current attribute values, done flags "
     "d_1..d_T (d_T = next_done) per (agent, env) column, id|random value tables, seed); for T<=5 every one of the "
     "2^T flag patterns of column 0 is generated for each of the base configurations (exhaustive incl. first, last, "
     "next_done), thorough adds every joint pattern of two columns for T<=3; one learn call with all taps + one "
@@ -50,6 +58,9 @@ RULE = (
     "column AND the flattened rows were decoded; distinct = distinct case descriptions"
 )
 ASSUMPTIONS = [
+    "gamma and gae_lambda of the estimate are the agent's attribute values at the time learn() is called (read by the "
+    "driver immediately before the call), whatever the constructor was given; whether clone / load_checkpoint / the "
+    "mutation carry the intended values over is C01 / C07 / C06's subject, not checked here",
     "rollouts are assembled exactly as train_on_policy / train_multi_agent_on_policy do: per-step lists, dones[0]=zeros, "
     "dones[t]=done of step t-1, next_done separate; numpy dtypes as produced by get_action / gymnasium vector envs",
     "update_epochs=1 and batch_size >= number of rows so that the taps see one pass over the data",
@@ -77,10 +88,12 @@ REQUIRED_COUNTERS = [
     "no_leak_columns",
     "row_alignment_rows",
     "loss_application_checks",
+    "gae_recursion_columns_after_hp_change",
 ]
 CASE_TIMEOUT_S = 120
 
 GRID = [0.0, 0.5, 0.95, 1.0]
+HP_CHANGES = ["assign", "mutation", "clone", "checkpoint"]
 GAE_NAMES = ["rewards", "dones", "values", "next_value", "next_done", "advantages"]
 LOSS_OPT = [
     "ratio",
@@ -104,6 +117,8 @@ def preload():
     import agilerl.algorithms.ppo  # noqa
     import agilerl.algorithms.ippo  # noqa
     import agilerl.utils.algo_utils  # noqa
+    import agilerl.hpo.mutation  # noqa
+    import agilerl.algorithms.core.registry  # noqa
     from vf.core import quiet_torch
 
     quiet_torch()
@@ -147,10 +162,23 @@ def _mk(rng, algo, vect, T, E, shared, other, flags=None, **kw):
         "gamma": float(kw["gamma"]) if "gamma" in kw else float(GRID[int(rng.integers(0, 4))]),
         "lam": float(kw["lam"]) if "lam" in kw else float(GRID[int(rng.integers(0, 4))]),
         "share_enc": bool(rng.random() < 0.5),
+        # gamma / gae_lambda changed AFTER construction (None = constructor values stay); "ctor" = the values the
+        # agent that finally learns was constructed with (assign, clone, checkpoint)
+        "hp_change": kw.get("hp_change", None if rng.random() < 0.62 else HP_CHANGES[int(rng.integers(0, len(HP_CHANGES)))]),
+        "ctor": [float(GRID[int(rng.integers(0, 4))]), float(GRID[int(rng.integers(0, 4))])],
         "flags": fl,
         "mode": kw.get("mode") or ("ids" if rng.random() < 0.35 else "rand"),
         "seed": int(rng.integers(1 << 30)),
     }
+    if c["hp_change"] == "mutation":
+        # grow / shrink of 0 stays 0: start from values a mutation really changes
+        c["gamma"] = c["gamma"] if c["gamma"] > 0 else 0.5
+        c["lam"] = c["lam"] if c["lam"] > 0 else 0.5
+        c["ctor"] = [c["gamma"], c["lam"]]
+    elif c["hp_change"] is None:
+        c["ctor"] = [c["gamma"], c["lam"]]
+    elif c["ctor"] == [c["gamma"], c["lam"]]:
+        c["ctor"] = [round(0.9 - 0.6 * c["gamma"], 3), round(0.8 - 0.5 * c["lam"], 3)]
     return c
 
 
@@ -196,6 +224,10 @@ def cases(tier, seed):
     for g, l in gl:
         out.append(_mk(rng, "PPO", True, 8, 4, 1, 0, gamma=g, lam=l))
         out.append(_mk(rng, "IPPO", True, 8, 4, 3, 1, gamma=g, lam=l))
+    for how in HP_CHANGES:
+        for g, l in ((0.95, 0.5), (0.5, 0.95), (1.0, 0.0)):
+            out.append(_mk(rng, "PPO", True, 5, 2, 1, 0, gamma=g, lam=l, hp_change=how))
+            out.append(_mk(rng, "IPPO", True, 4, 2, 2, 1, gamma=g, lam=l, hp_change=how))
     for E in (1, 2, 4):
         out.append(_mk(rng, "PPO", True, 1, E, 1, 0))
         out.append(_mk(rng, "IPPO", True, 1, E, 1, 0))
@@ -418,18 +450,15 @@ def _net_config(obs_kind):
     return {"encoder_config": {"hidden_size": [8]}, "head_config": {"hidden_size": [8]}}
 
 
-def _make_agent(case, ro: Rollout):
-    import torch
-
-    torch.manual_seed(case["seed"] % (1 << 31))
-    np.random.seed(case["seed"] % (1 << 31))
+def _build_agent(case, ro: Rollout, gamma, lam, hp_config=None):
     kw = dict(
         net_config=_net_config(case["obs"]),
         batch_size=max(512, 2 * ro.n),
         update_epochs=1,
-        gamma=case["gamma"],
-        gae_lambda=case["lam"],
+        gamma=gamma,
+        gae_lambda=lam,
         lr=1e-4,
+        hp_config=hp_config,
     )
     if case["algo"] == "PPO":
         from agilerl.algorithms.ppo import PPO
@@ -443,6 +472,78 @@ def _make_agent(case, ro: Rollout):
         agent_ids=list(ro.names),
         **kw,
     )
+
+
+def _make_agent(case, ro: Rollout, rec=None):
+    """The agent that will learn.  With case['hp_change'] its gamma / gae_lambda are changed after construction
+    the ways the library itself and its users do it; the oracle later reads the agent's *current* attributes."""
+    import torch
+
+    torch.manual_seed(case["seed"] % (1 << 31))
+    np.random.seed(case["seed"] % (1 << 31))
+    how = case.get("hp_change")
+    g, l = case["gamma"], case["lam"]
+    g0, l0 = case.get("ctor") or [g, l]
+    if how is None:
+        return _build_agent(case, ro, g, l)
+    if rec is not None:
+        rec.hit("hp_change_" + how)
+    if how == "assign":
+        agent = _build_agent(case, ro, g0, l0)
+        agent.gamma = g
+        agent.gae_lambda = l
+        return agent
+    if how == "clone":
+        parent = _build_agent(case, ro, g0, l0)
+        parent.gamma = g
+        parent.gae_lambda = l
+        return parent.clone()
+    if how == "checkpoint":
+        import os
+        import tempfile
+
+        src = _build_agent(case, ro, g, l)
+        agent = _build_agent(case, ro, g0, l0)
+        with tempfile.TemporaryDirectory(prefix="vf_c17_") as d:
+            path = os.path.join(d, "agent.pt")
+            src.save_checkpoint(path)
+            agent.load_checkpoint(path)
+        return agent
+    if how == "mutation":
+        from agilerl.algorithms.core.registry import HyperparameterConfig, RLParameter
+        from agilerl.hpo.mutation import Mutations
+
+        hp = HyperparameterConfig(gamma=RLParameter(min=0.1, max=1.0), gae_lambda=RLParameter(min=0.1, max=1.0))
+        agent = _build_agent(case, ro, g, l, hp_config=hp)
+        mut = Mutations(0, 0, 0, 0, 0, 1, rand_seed=case["seed"] % (1 << 31), device="cpu")
+        for _ in range(2):
+            agent = mut.rl_hyperparam_mutation(agent)
+        return agent
+    raise ValueError(how)
+
+
+def _current_hp(agent, case):
+    """gamma / gae_lambda as the agent holds them now (= at learn time) + what its constructor was given."""
+    g0, l0 = case.get("ctor") or [case["gamma"], case["lam"]]
+    return {
+        "gamma": float(agent.gamma),
+        "lam": float(agent.gae_lambda),
+        "ctor": [float(g0), float(l0)],
+        "how": case.get("hp_change"),
+    }
+
+
+def _gae_variant(r, v, flags, nv, gamma_delta, trace):
+    """The recursion with a free trace coefficient (diagnosis only: which stale numbers explain a deviation)."""
+    T, C = r.shape
+    adv = np.zeros((T, C))
+    last = np.zeros(C)
+    for t in range(T - 1, -1, -1):
+        v_next = nv if t == T - 1 else v[t + 1]
+        cont = 1.0 - flags[t]
+        last = r[t] + gamma_delta * v_next * cont - v[t] + trace * cont * last
+        adv[t] = last
+    return adv
 
 
 def _critic_next_values(agent, case, ro: Rollout):
@@ -573,7 +674,7 @@ def _close(a, b, rel=1e-6):
 
 
 # ====================================================================== analysis of one policy group
-def _analyse(rec, case, ro: Rollout, site, tapped, nv_ref):
+def _analyse(rec, case, ro: Rollout, site, tapped, nv_ref, hp):
     """All single-run monitors for one call of PPO.learn / IPPO._learn_individual.
 
     -> (adv_by_gid or None, pid or None)
@@ -581,7 +682,7 @@ def _analyse(rec, case, ro: Rollout, site, tapped, nv_ref):
     from vf.refmodels.gae import gae_table
 
     T = ro.T
-    gamma, lam = case["gamma"], case["lam"]
+    gamma, lam = hp["gamma"], hp["lam"]  # the agent's current attributes, not the case description
     can = _canon(rec, site, tapped["gae"])
     adv_by_gid = None
     pid = None
@@ -694,6 +795,9 @@ def _analyse(rec, case, ro: Rollout, site, tapped, nv_ref):
         err = np.abs(ref_adv - can["advantages"])
         rec.hit("gae_recursion_columns", C)
         rec.hit("gae_recursion_elements", int(ref_adv.size))
+        changed = hp["how"] is not None and [gamma, lam] != hp["ctor"]
+        if changed:
+            rec.hit("gae_recursion_columns_after_hp_change", C)
         if flags.any():
             rec.hit("gae_recursion_columns_with_boundary", int(flags.any(axis=0).sum()))
         inputs_finite = all(np.isfinite(can[k]).all() for k in ("rewards", "values", "next_value"))
@@ -703,10 +807,19 @@ def _analyse(rec, case, ro: Rollout, site, tapped, nv_ref):
             rec.hit("gae_recursion_non_finite_inputs")
         elif (err > tol).any():
             t_, j = [int(x) for x in np.unravel_index(int(np.argmax(err - tol)), err.shape)]
+            kind = "advantage_differs_from_recursion"
+            if changed:
+                g0, l0 = hp["ctor"]
+                for gd in (gamma, g0):
+                    alt = _gae_variant(can["rewards"], can["values"], flags, can["next_value"], gd, g0 * l0)
+                    if (np.abs(alt - can["advantages"]) <= tol).all():
+                        kind = "advantage_follows_constructor_time_gamma_lambda"
             rec.violate(
                 "gae_recursion",
-                "advantage_differs_from_recursion",
+                kind,
                 site,
+                hp_changed_by=hp["how"],
+                constructor_gamma_lambda=hp["ctor"],
                 t=t_,
                 column=j,
                 T=int(Tn),
@@ -936,7 +1049,12 @@ def _run(case, rec: Recorder):
 
     site = _site(case)
     ro = Rollout(case)
-    agent = _make_agent(case, ro)
+    agent = _make_agent(case, ro, rec)
+    hp = _current_hp(agent, case)
+    if hp["how"] is not None:
+        rec.extra["hp_at_learn_time"] = [hp["gamma"], hp["lam"]]
+        if [hp["gamma"], hp["lam"]] != hp["ctor"]:
+            rec.hit("hp_differs_from_constructor_at_learn_time")
     nv_ref = _critic_next_values(agent, case, ro)
     is_ppo = case["algo"] == "PPO"
 
@@ -960,7 +1078,7 @@ def _run(case, rec: Recorder):
     adv1, pid1, rows1, nd_swapped = [], [], [], []
     for tapped in groups:
         w0 = len(rec.witnesses)
-        a, p, rows = _analyse(rec, case, ro, site, tapped, nv_ref)
+        a, p, rows = _analyse(rec, case, ro, site, tapped, nv_ref, hp)
         adv1.append(a)
         pid1.append(p)
         rows1.append(rows)
@@ -971,7 +1089,7 @@ def _run(case, rec: Recorder):
         ref = {}
         for c in range(ro.ncol):
             gs = [c * ro.T + t + 1 for t in range(ro.T)]
-            adv, _ret, scale = gae_column([ro.R[g] for g in gs], [ro.V[g] for g in gs], ro.flag[c], nv_ref[c], case["gamma"], case["lam"])
+            adv, _ret, scale = gae_column([ro.R[g] for g in gs], [ro.V[g] for g in gs], ro.flag[c], nv_ref[c], hp["gamma"], hp["lam"])
             for t, g in enumerate(gs):
                 ref[g] = (adv[t], scale[t])
         for rows in rows1:
@@ -979,7 +1097,7 @@ def _run(case, rec: Recorder):
             for r in range(rows["N"]):
                 g = int(rows["sid"][r])
                 want, scale = ref[g]
-                tol = 6e-6 * ro.T * scale + 3e-5 * case["gamma"] * (1.0 + abs(nv_ref[(g - 1) // ro.T])) + 1e-9
+                tol = 6e-6 * ro.T * scale + 3e-5 * hp["gamma"] * (1.0 + abs(nv_ref[(g - 1) // ro.T])) + 1e-9
                 if abs(rows["fa"][r] - want) > tol or abs(rows["fr"][r] - (want + float(ro.V[g]))) > tol + 4e-6 * abs(float(ro.V[g])):
                     rec.violate(
                         "end_to_end",
